@@ -3047,8 +3047,14 @@ func (c *compiler) emitCallee(callee compiledExpr) (calleeName unistring.String)
 }
 
 func (e *compiledCallExpr) emitGetter(putOnStack bool) {
+	var optBlock *block
+	var numBreaks, numConts int
 	if e.isVariadic {
 		e.c.emit(startVariadic)
+		if b := e.c.block; b != nil && b.typ == blockOptChain {
+			optBlock = b
+			numBreaks, numConts = len(b.breaks), len(b.conts)
+		}
 	}
 	calleeName := e.c.emitCallee(e.callee)
 
@@ -3105,6 +3111,25 @@ func (e *compiledCallExpr) emitGetter(putOnStack bool) {
 	}
 	if e.isVariadic {
 		e.c.emit(endVariadic)
+		if optBlock != nil && e.c.block == optBlock && (len(optBlock.breaks) > numBreaks || len(optBlock.conts) > numConts) {
+			// A short circuit of the optional chain inside this call would skip endVariadic and leave
+			// the variadic marker on the stack: land it here first, then continue to the end of the chain.
+			skip := len(e.c.p.code)
+			e.c.emit(nil)
+			pad := len(e.c.p.code)
+			for _, item := range optBlock.breaks[numBreaks:] {
+				e.c.p.code[item] = jopt(pad - item)
+			}
+			for _, item := range optBlock.conts[numConts:] {
+				e.c.p.code[item] = joptc(pad - item)
+			}
+			optBlock.breaks = optBlock.breaks[:numBreaks]
+			optBlock.conts = optBlock.conts[:numConts]
+			e.c.emit(endVariadic)
+			optBlock.breaks = append(optBlock.breaks, len(e.c.p.code))
+			e.c.emit(nil)
+			e.c.p.code[skip] = jump(len(e.c.p.code) - skip)
+		}
 	}
 	if !putOnStack {
 		e.c.emit(pop)
